@@ -120,6 +120,8 @@ func randServOrder(ks []string) map[int]string {
 	count := len(ks)
 	i := 1
 	if count > 1 {
+		// Shuffle a copy: ks is the loaded configuration's own slice.
+		ks = append([]string(nil), ks...)
 		l := len(ks)
 		for l > 0 {
 			ri := rand.Intn(l)
